@@ -8,6 +8,7 @@ Local Open Scope list_scope.
 Section P2.
   Variable V : Type.
   Variable bin : binop -> V -> V -> V.
+  Variable un : unop -> V -> V.
   Notation node := (node V).
   Notation ival := (ival V).
 
@@ -103,10 +104,10 @@ Section P2.
   Lemma vector_placement (n : node) (vec : list V) (i : nat) (p : path) (dq : nat) (dv : V) :
     List.length vec = prior_count V n -> i < prior_count V n ->
     node_at V p n = Some (NPrior (nth i (ordered_ids V n) dq)) ->
-    lookup V p (inst_from_vector V bin n vec) = Some (IV (nth i vec dv)).
+    lookup V p (inst_from_vector V bin un n vec) = Some (IV (nth i vec dv)).
   Proof.
     intros L Hi H. unfold inst_from_vector.
-    rewrite (lookup_inst V bin _ p n _ H). cbn [inst].
+    rewrite (lookup_inst V bin un _ p n _ H). cbn [inst].
     rewrite (zip_args_nth _ vec i dq dv); [reflexivity|apply ordered_ids_nodup| |].
     - rewrite ordered_ids_length. exact L.
     - rewrite ordered_ids_length. exact Hi.
@@ -114,8 +115,8 @@ Section P2.
 
   (* fixed values are untouched, whatever the vector *)
   Lemma fixed_untouched (args : nat -> option V) (n : node) (p : path) (v : V) :
-    node_at V p n = Some (NConst v) -> lookup V p (inst V bin args n) = Some (IV v).
-  Proof. intro H. rewrite (lookup_inst V bin args p n _ H). reflexivity. Qed.
+    node_at V p n = Some (NConst v) -> lookup V p (inst V bin un args n) = Some (IV v).
+  Proof. intro H. rewrite (lookup_inst V bin un args p n _ H). reflexivity. Qed.
 
   (* derived (arithmetic) parameters are computed from the same assignment *)
   Fixpoint eval (args : nat -> option V) (n : node) : option V :=
@@ -127,31 +128,40 @@ Section P2.
         | Some a, Some b => Some (bin o a b)
         | _, _ => None
         end
+    | NUn o _ c =>
+        match c with
+        | NConst _ => None          (* a float operand has no instance_for_arguments: the code raises *)
+        | _ => match eval args c with Some a => Some (un o a) | None => None end
+        end
     | _ => None
     end.
 
   Lemma inst_eval (args : nat -> option V) (n : node) (v : V) :
-    eval args n = Some v -> inst V bin args n = IV v.
+    eval args n = Some v -> inst V bin un args n = IV v.
   Proof.
-    revert v. induction n as [q|c|ms _|o ln rn l r IHl IHr|cls ctor attrs _|attrs _] using (node_ind' V);
+    revert v. induction n as [q|c|ms _|o ln rn l r IHl IHr|uo unm uc IHc|cls ctor attrs _|attrs _] using (node_ind' V);
       intros v H; simpl in H; try discriminate.
     - cbn [inst]. rewrite H. reflexivity.
     - inversion H; subst. reflexivity.
     - destruct (eval args l) as [a|] eqn:El; [|discriminate].
       destruct (eval args r) as [b|] eqn:Er; [|discriminate].
       inversion H; subst. cbn [inst]. rewrite (IHl a eq_refl), (IHr b eq_refl). reflexivity.
+    - cbn [inst].
+      destruct uc; try discriminate;
+        (destruct (eval args _) as [a|] eqn:Ec in H; [|discriminate]; inversion H; subst;
+         rewrite (IHc a Ec); reflexivity).
   Qed.
 
   Lemma derived_value (args : nat -> option V) (n : node) (p : path) (c : node) (v : V) :
-    node_at V p n = Some c -> eval args c = Some v -> lookup V p (inst V bin args n) = Some (IV v).
-  Proof. intros H E. rewrite (lookup_inst V bin args p n c H). rewrite (inst_eval args c v E). reflexivity. Qed.
+    node_at V p n = Some c -> eval args c = Some v -> lookup V p (inst V bin un args n) = Some (IV v).
+  Proof. intros H E. rewrite (lookup_inst V bin un args p n c H). rewrite (inst_eval args c v E). reflexivity. Qed.
 
   (* ---------- tuples: members in the order of their numeric position ---------- *)
   Definition member_vals (args : nat -> option V) (ms : list (string * (nat * node))) : list (nat * ival) :=
-    sort_by fst (map (fun m => (fst (snd m), inst V bin args (snd (snd m)))) ms).
+    sort_by fst (map (fun m => (fst (snd m), inst V bin un args (snd (snd m)))) ms).
 
   Lemma inst_tuple (args : nat -> option V) (ms : list (string * (nat * node))) :
-    inst V bin args (NTuple ms) = ITup (map snd (member_vals args ms)).
+    inst V bin un args (NTuple ms) = ITup (map snd (member_vals args ms)).
   Proof.
     cbn [inst]. f_equal. f_equal. unfold member_vals, sort_by.
     induction ms as [|[k [i c]] ms IH]; simpl; [reflexivity|]. rewrite IH. reflexivity.
@@ -189,11 +199,11 @@ Section P2.
   Lemma tuple_in_position_order (args : nat -> option V) (ms : list (string * (nat * node))) (nm : string) (i : nat) (c : node) :
     Permutation (map (fun m => fst (snd m)) ms) (seq 0 (List.length ms)) ->
     In (nm, (i, c)) ms ->
-    exists vs, inst V bin args (NTuple ms) = ITup vs /\ List.length vs = List.length ms /\
-               nth i vs IMissing = inst V bin args c.
+    exists vs, inst V bin un args (NTuple ms) = ITup vs /\ List.length vs = List.length ms /\
+               nth i vs IMissing = inst V bin un args c.
   Proof.
     intros P Hin. exists (map snd (member_vals args ms)). split; [apply inst_tuple|].
-    assert (Pm : Permutation (member_vals args ms) (map (fun m => (fst (snd m), inst V bin args (snd (snd m)))) ms))
+    assert (Pm : Permutation (member_vals args ms) (map (fun m => (fst (snd m), inst V bin un args (snd (snd m)))) ms))
       by apply sort_by_perm.
     assert (Len : List.length (member_vals args ms) = List.length ms)
       by (rewrite (Permutation_length Pm), map_length; reflexivity).
@@ -210,12 +220,12 @@ Section P2.
     { assert (In i (seq 0 (List.length ms))).
       { apply (Permutation_in _ P). apply in_map_iff. exists (nm, (i, c)). split; [reflexivity|exact Hin]. }
       apply in_seq in H. lia. }
-    assert (In1 : In (i, inst V bin args c) (member_vals args ms)).
+    assert (In1 : In (i, inst V bin un args c) (member_vals args ms)).
     { apply (Permutation_in _ (Permutation_sym Pm)). apply in_map_iff. exists (nm, (i, c)). split; [reflexivity|exact Hin]. }
     set (e := nth i (member_vals args ms) (0, IMissing)).
     assert (Fe : fst e = i) by (apply (sorted_seq_nth _ (List.length ms) S Keys); exact Hi).
     assert (In2 : In e (member_vals args ms)) by (apply nth_In; rewrite Len; exact Hi).
-    assert (Eq : e = (i, inst V bin args c)).
+    assert (Eq : e = (i, inst V bin un args c)).
     { apply (nodup_key_unique (member_vals args ms)); auto. }
     change IMissing with (snd (0, @IMissing V)). rewrite map_nth. fold e. rewrite Eq. reflexivity.
   Qed.
